@@ -13,7 +13,7 @@ def run(chk):
     chk.trusted = TRUSTED
     chk.assumptions = ['release configuration for the theorem; release and MI_DEBUG=2 for the oracle (debug builds reject aligned_at offsets that are not multiples of the word size: such offsets are not generated)']
     chk.extra['rule'] = ('obligations = theorems of Props/C03.lean over regenerated definitions; evaluations = wrapper decisions compared + API calls checked by the shadow oracle; distinct = oracle runs')
-    chk.lean('MiVerif.Props.C03', groups=['Entry', 'Arith', 'Tables'])
+    chk.lean('MiVerif.Props.C03', groups=['Entry', 'Arith', 'Tables', 'Os'])
     thorough = chk.tier == 'thorough'
     with V.Scratch() as d:
         C05.entry_harness(chk, d)
